@@ -21,9 +21,10 @@ from gen import c05_xnorth as tr_xnorth
 
 ID = "C07"
 PROPS_FILES = ["Gama/Props/C07.lean", "Gama/Props/C07Compose.lean", "Gama/Props/C07Revision.lean",
-               "Gama/Props/C07ProjectEquations.lean", "Gama/Props/C07PointIdInit.lean", "Gama/Props/C07Mirror.lean"]
+               "Gama/Props/C07ProjectEquations.lean", "Gama/Props/C07PointIdInit.lean", "Gama/Props/C07Mirror.lean",
+               "Gama/Props/C07MirrorSigma.lean"]
 LEAN_TARGETS = ["Gama.Props.C07", "Gama.Props.C07Compose", "Gama.Props.C07Revision", "Gama.Props.C07ProjectEquations",
-                "Gama.Props.C07PointIdInit", "Gama.Props.C07Mirror"]
+                "Gama.Props.C07PointIdInit", "Gama.Props.C07Mirror", "Gama.Props.C07MirrorSigma"]
 DRIVERS = ["drv_input"]
 RULE = ("(a) input stream: PointID pairs from a pool of ASCII / digit / leading-zero / white-space / UTF-8 / long "
         "identifiers and random byte strings (distinct by the pair of byte strings, non-trivial = the two normalised "
@@ -72,13 +73,26 @@ LEVEL_TEXT = ("proof for the linearised problem, exploration beyond it: Lean 4 t
               "this check as well: the whole revision and the active view commute with exchanging the ends of distances, slope "
               "distances, height and coordinate differences); the degrees clause is proved "
               "on the shared model of deg2gon (Gama.Angles.deg2gon, every accepted string) and the 1/0.324 rescaling is "
-              "proved exact; round 9: the mirror clause is stated on the pass project_equations() itself executes (two runs of "
+              "proved exact; rounds 6-7: the circle-rotation clause is restated on the matrix and right-hand sides of a pass of "
+              "Lin.passFrom (C07_ori_column_of_pass, C07_circle_rotation_of_pass; identity order) and on the output (np, u) of "
+              "PE.projectEquations with S any subset of min_x_, where 'the orientation unknown is not regularised' is DERIVED "
+              "(C07_pe_ori_not_regularised; C07_circle_rotation_of_project_equations, rows regular and no wrap still assumed); "
+              "round 9: the mirror clause is stated on the pass project_equations() itself executes (two runs of "
               "Lin.passFrom over the regenerated linearisation on a network and its mirrored description: same numbering, A' = D_s A D_t, "
-              "b' = D_s b, solution carried over; for the outputs of PE.projectEquations under the hypothesis that both calls end with the "
-              "same statuses, _partial), the weights D_s P D_s are derived cluster by cluster from the regenerated covariance loop of "
+              "b' = D_s b, solution carried over; for the outputs of PE.projectEquations only _partial: "
+              "C07_mirror_of_project_equations_partial keeps a hypothesis saying that singular_coords treats the two calls alike "
+              "(round 10: reduced to DegenInv, the numeric colinearity test on the two homogenised matrices, NOT proved; given it and "
+              "regular observations both calls revise, number, remove and regularise alike, C07_mirror_same_course), and has no "
+              "evaluated witness), the weights D_s P D_s are derived cluster "
+              "by cluster from the regenerated covariance loop of "
               "change_y_signs_for_inconsistent_system_ (Gen/YSign.lean, C10's translator; the hand model of the input stream is proved "
-              "equal to it), xNorthAngle() of the mirrored system from the regenerated table, renaming lifted to the whole pass "
-              "(identical rows and solution), the y_sign of the adjustment XML for y and orientations, and a negative witness for "
+              "equal to it, C07_flip_is_generated; C07_mirror_weight_block per cluster, C07_mirror_sigma for the covariance matrix "
+              "Sigma of a whole assembled problem with conjugated clusters - not yet instantiated at the two outputs of projectEquations), "
+              "xNorthAngle() of the mirrored system from the regenerated table (integer table only, the full circle between 400 - lh "
+              "and -lh not composed with the pass theorem; x<->y exchange of the axes: table only), renaming lifted to the whole pass "
+              "(identical rows and solution), the matrix of the older *_assembled theorems identified with the executed pass's "
+              "(C07_assembled_is_executed_pass), the y_sign of the adjustment XML for y and orientations (hand model of the writer "
+              "lines, no stream), and a negative witness for "
               "cov-mat / alpha (C07-F3). NOT proved: the iteration to convergence, the approximate-orientation median (C06), number "
               "parsing/printing; these are explored by the metamorphic search on gama-local only.")
 LEVEL_NOTE = ("The theorems are about exact real arithmetic and about one linearisation; equality of two complete "
@@ -107,7 +121,11 @@ TRUSTED = ["tools/gen/c07_meta.py: the re-expressions themselves (what counts as
            "dms / ang operations)"]
 MODELLED = ["iteration of the linearised adjustment to convergence (explored only)",
             "printing and parsing of numbers (explored only)",
-            "libm (sin/cos/atan2/acos/sqrt)", "std::map<PointID,...> (assumed to iterate in operator< order)",
+            "libm (sin/cos/atan2/acos/sqrt)", "std::map<PointID,...> (assumed to iterate in operator< order; observed on the C++ "
+            "side by the pmap operation of the input stream)",
+            "the mirrored description as a network (mirLin / mirNet of Lemmas/C07Mirror*.lean: y, orientations, xNorthAngle and the "
+            "mirrored observation values negated exactly; the value in [0, 400) gon the parser stores differs by a full circle, "
+            "not composed); degrees / renaming are not stated on a PE.Net built from attribute strings",
             "std::isspace for bytes >= 0x80 (C locale: not white space)"]
 ASSUMPTIONS = ["the \"C\" locale is in effect when identifiers are normalised",
                "identifiers passed to PointID are the attribute values delivered by expat (attribute-value normalisation "
